@@ -1,0 +1,12 @@
+//go:build !verif
+
+package server
+
+// Verification hooks (see /verif/MANIFEST.hooks). Without the "verif" build
+// tag they are empty and are compiled away.
+
+func verifEvent(kind string, args ...any) {}
+
+func verifYield(point string, args ...any) {}
+
+func verifTargetCreated(t *Target) {}
